@@ -24,9 +24,14 @@ CONSTANTS RtmpPubs, RtspPubs, CustPubs, PsPubs,     \* input sessions (ids)
           PushTargets,                              \* relay push targets (addr_list); {} = relay push off
           ParamLen,                                 \* length of the URL parameters of RTMP publishers (0 = none)
           ProbeMsgs,                                \* messages per Probe (2 when an AAC sequence header precedes the frame)
-          MaxTick, MaxAttempts
+          MaxTick, MaxAttempts,
+          WirePubs,                                 \* RTMP publishers on a real connection served by the server's own routine
+          MaxSweep                                  \* idle sweeps (ticks whose count is a multiple of 120); 0 = not modelled
 
-NetPubs == RtmpPubs \cup RtspPubs
+NetPubs == RtmpPubs \cup RtspPubs \cup WirePubs
+\* sessions whose server goroutine reports their departure as soon as they are disposed (the driver owns
+\* that goroutine for RtmpPubs / Subs, which are attached and deleted by direct calls)
+AutoPubs == RtspPubs \cup WirePubs
 Pubs == NetPubs \cup CustPubs \cup PsPubs
 Subs == RtmpSubs \cup FlvSubs
 Sessions == Pubs \cup Subs
@@ -43,10 +48,12 @@ VARIABLES grp,      \* the group exists
           push,     \* relay push per target: idle | conn (connecting) | att (attached); patt = connection attempts seen
           patt,
           down,     \* the server has been shut down (ServerManager.Dispose): nothing happens any more
+          idl,      \* idle check per session (BasicSessionStat.staleStat): new (never checked) | moved | still
+          nsweeps,
           act
 
-vars == <<grp, inp, owner, ss, closed, nh, pull, clock, nticks, push, patt, down, act>>
-View == <<grp, inp, owner, ss, closed, nh, pull, clock, nticks, push, patt, down>>
+vars == <<grp, inp, owner, ss, closed, nh, pull, clock, nticks, push, patt, down, idl, nsweeps, act>>
+View == <<grp, inp, owner, ss, closed, nh, pull, clock, nticks, push, patt, down, idl, nsweeps>>
 
 PullInit == [api |-> FALSE, flying |-> FALSE, att |-> FALSE, n |-> 0, lastOut |-> 0, attempts |-> 0, gen |-> 0]
 
@@ -55,6 +62,7 @@ Init == /\ grp = FALSE /\ inp = "" /\ owner = ""
         /\ nh = [x \in Sessions |-> "none"]
         /\ pull = PullInit /\ clock = 0 /\ nticks = 0 /\ down = FALSE
         /\ push = [t \in PushTargets |-> "idle"] /\ patt = 0
+        /\ idl = [x \in Sessions |-> "new"] /\ nsweeps = 0
         /\ act = [name |-> "init"]
 
 HasSub == \E x \in Subs : ss[x] = "in"
@@ -186,16 +194,16 @@ Kick(x) ==
        ELSE IF ~Kickable(x)
          THEN /\ act' = [name |-> "Kick", x |-> x, obs |-> Obs("nosession", <<>>, <<>>)]
               /\ UNCHANGED <<ss, closed, inp, owner>>
-         ELSE IF x \in PsPubs \cup RtspPubs     \* served by their own goroutine: the departure follows at once
+         ELSE IF x \in PsPubs \cup AutoPubs     \* served by their own goroutine: the departure follows at once
            THEN /\ ss' = [ss EXCEPT ![x] = "gone"]
                 /\ IF inp = x THEN inp' = "" /\ owner' = "" ELSE UNCHANGED <<inp, owner>>
                 /\ act' = [name |-> "Kick", x |-> x,
-                           obs |-> Obs("ok", IF x \in RtspPubs THEN <<N("pub_stop", x)>> ELSE <<>>, IF inp = x THEN DelInEv ELSE <<>>)]
+                           obs |-> Obs("ok", IF x \in AutoPubs THEN <<N("pub_stop", x)>> ELSE <<>>, IF inp = x THEN DelInEv ELSE <<>>)]
                 /\ UNCHANGED closed
            ELSE /\ closed' = [closed EXCEPT ![x] = TRUE]
                 /\ act' = [name |-> "Kick", x |-> x, obs |-> Obs("ok", <<>>, <<>>)]
                 /\ UNCHANGED <<ss, inp, owner>>
-  /\ nh' = IF grp /\ Kickable(x) /\ x \in RtspPubs THEN [nh EXCEPT ![x] = "stopped"] ELSE nh
+  /\ nh' = IF grp /\ Kickable(x) /\ x \in AutoPubs THEN [nh EXCEPT ![x] = "stopped"] ELSE nh
   /\ UNCHANGED <<grp, pull, clock, nticks>>
 
 \* one media message offered by x: forwarded (the stream hook sees it) iff x is the accepted input
@@ -340,7 +348,7 @@ Step == \/ \E x \in NetPubs : NewPub(x) \/ DelPub(x)
 \* after the shutdown nothing happens; Halt only exists so that a simulated behaviour still has a
 \* step after Shutdown (the emission prints the action that led to the current state)
 Halt == /\ down /\ act.name # "Halt" /\ act' = [name |-> "Halt"]
-        /\ UNCHANGED <<grp, inp, owner, ss, closed, nh, pull, clock, nticks, push, patt, down>>
+        /\ UNCHANGED <<grp, inp, owner, ss, closed, nh, pull, clock, nticks, push, patt, down, idl, nsweeps>>
 \* what a step of the session bookkeeping does to relay push
 PushFx ==
   IF grp /\ ~grp' THEN push' = [t \in PushTargets |-> "idle"] /\ patt' = patt          \* group removed
@@ -369,10 +377,46 @@ PushStep == /\ \E t \in PushTargets : PushOk(t) \/ PushFail(t) \/ PushEnd(t)
             /\ patt' = patt
             /\ UNCHANGED <<grp, inp, owner, ss, closed, nh, pull, clock, nticks>>
 
+\* ---- idle check (Group.disposeInactiveSessions, every 120th tick; BasicSessionStat.isAlive): the first
+\* check of a session only records its byte counters; a later check disposes it when no byte has moved
+\* since the previous one - read bytes for publishers, written bytes for subscribers.
+\* Bytes move when a Probe travels through the session's connection: a wire publisher that sends it, a
+\* subscriber it is forwarded to (the RtmpPubs / RtspPubs of the driver hand their media to the group
+\* directly, so their connections never carry a byte).
+Touched(x, p) == \/ (x = p /\ p \in WirePubs /\ ss[p] = "in")
+                 \/ (x \in Subs /\ ss[x] = "in" /\ ~closed[x] /\ inp = p)
+IdlFx == idl' = IF act'.name = "Probe"
+                  THEN [x \in Sessions |-> IF idl[x] = "still" /\ Touched(x, act'.x) THEN "moved" ELSE idl[x]]
+                  ELSE idl
+Sweep ==
+  /\ ~PullEnabled /\ PushTargets = {} /\ nsweeps < MaxSweep
+  /\ nsweeps' = nsweeps + 1
+  /\ IF ~grp THEN /\ act' = [name |-> "Sweep", obs |-> Obs("ok", <<>>, <<>>)]
+                  /\ UNCHANGED <<grp, inp, owner, ss, closed, nh, idl>>
+     ELSE IF Inactive
+       THEN /\ grp' = FALSE
+            /\ act' = [name |-> "Sweep", obs |-> Obs("ok", <<>>, <<>>)]
+            /\ UNCHANGED <<inp, owner, ss, closed, nh, idl>>
+       ELSE LET chk  == {x \in NetPubs \cup Subs : ss[x] = "in"}
+                dead == {x \in chk : idl[x] = "still"}
+                auto == dead \cap AutoPubs          \* (an attached AutoPub is the accepted input)
+            IN /\ grp' = grp
+               /\ idl' = [x \in Sessions |-> IF x \in chk THEN "still" ELSE idl[x]]
+               /\ closed' = [x \in Sessions |-> closed[x] \/ (x \in dead \ AutoPubs)]
+               /\ ss' = [x \in Sessions |-> IF x \in auto THEN "gone" ELSE ss[x]]
+               /\ nh' = [x \in Sessions |-> IF x \in auto THEN "stopped" ELSE nh[x]]
+               /\ inp' = IF inp \in auto THEN "" ELSE inp
+               /\ owner' = IF inp \in auto THEN "" ELSE owner
+               /\ act' = [name |-> "Sweep",
+                          obs |-> Obs("ok", IF inp \in auto THEN <<N("pub_stop", inp)>> ELSE <<>>,
+                                             IF inp \in auto THEN DelInEv ELSE <<>>)]
+  /\ UNCHANGED <<pull, clock, nticks, push, patt, down>>
+
 Next == \/ /\ ~down
-           /\ \/ (Step /\ PushFx /\ down' = down)
-              \/ (PushStep /\ down' = down)
-              \/ Shutdown
+           /\ \/ (Step /\ PushFx /\ IdlFx /\ down' = down /\ nsweeps' = nsweeps)
+              \/ (PushStep /\ down' = down /\ UNCHANGED <<idl, nsweeps>>)
+              \/ Sweep
+              \/ (Shutdown /\ UNCHANGED <<idl, nsweeps>>)
         \/ Halt
 Spec == Init /\ [][Next]_vars
 
@@ -399,11 +443,20 @@ PushSane == \A t \in PushTargets : push[t] = "att" => Pushable(inp)
 \* C16: a group with nothing left is removed by the next tick (checked as: an inactive group never survives a Tick)
 EmptyRemovedAct == [][(act'.name = "Tick" /\ grp /\ Inactive) => ~grp']_vars
 
+\* C16: an attached network session that moved no byte between two idle checks is disconnected by the second
+\* one, and one that did is left alone
+IdleDisconnectedAct ==
+  [][(act'.name = "Sweep" /\ grp /\ ~Inactive) =>
+       \A x \in NetPubs \cup Subs : ss[x] = "in" =>
+          IF idl[x] = "still" THEN (closed'[x] \/ ss'[x] = "gone")
+          ELSE (ss'[x] = "in" /\ closed'[x] = closed[x])]_vars
+
 St == [grp |-> grp, inp |-> inp, owner |-> owner, ss |-> ss, closed |-> closed, pull |-> pull, clock |-> clock,
-       nticks |-> nticks, down |-> down, push |-> push, patt |-> patt]
+       nticks |-> nticks, down |-> down, push |-> push, patt |-> patt, idl |-> idl, nsweeps |-> nsweeps]
 Emit == PrintT("@E@" \o ToJson([f |-> St, a |-> act',
                                  t |-> [grp |-> grp', inp |-> inp', owner |-> owner', ss |-> ss', closed |-> closed',
-                                        pull |-> pull', clock |-> clock', nticks |-> nticks', down |-> down', push |-> push', patt |-> patt'],
+                                        pull |-> pull', clock |-> clock', nticks |-> nticks', down |-> down', push |-> push', patt |-> patt',
+                                        idl |-> idl', nsweeps |-> nsweeps'],
                                  l |-> TLCGet("level")]))
 EmitA == PrintT("@A@" \o ToJson([a |-> act, l |-> TLCGet("level")]))
 =============================================================================
